@@ -77,12 +77,15 @@ type ContractDB struct {
 	// Shutdown state; every other function may touch such a field only where it knows that the node
 	// is not shut down. StopExempt: the lifecycle functions themselves.
 	StopOwned  map[string]bool
+	// StopRead: fields that Stop() only READS without the lock: elsewhere only a write (or a
+	// mutation of the map the field holds) needs the knowledge; reads do not conflict.
+	StopRead map[string]bool
 	StopExempt map[string]bool
 	File        string
 	NLines      int
 }
 
-var topKeywords = map[string]bool{"sectguar": true, "ghost": true, "spec": true, "inv": true, "guar": true, "threadlocal": true, "func": true, "iface": true, "extern": true, "lemma": true, "callers": true, "unprotected": true, "owner": true, "stopowned": true, "stopexempt": true}
+var topKeywords = map[string]bool{"sectguar": true, "ghost": true, "spec": true, "inv": true, "guar": true, "threadlocal": true, "func": true, "iface": true, "extern": true, "lemma": true, "callers": true, "unprotected": true, "owner": true, "stopowned": true, "stopread": true, "stopexempt": true}
 var clauseKeywords = map[string]bool{"requires": true, "ensures": true, "assume": true, "release": true, "at": true, "loop": true, "let": true, "val": true, "modifies": true, "flags": true}
 
 var labelRe = regexp.MustCompile(`^\[([^\]]+)\]\s*`)
@@ -115,7 +118,7 @@ func ParseContractFile(path string) (*ContractDB, error) {
 	if err != nil {
 		return nil, err
 	}
-	db := &ContractDB{Funcs: map[string]*FuncContract{}, Specs: map[string]*SpecFn{}, GhostByName: map[string]GhostVar{}, ThreadLocal: map[string]bool{}, Consts: map[string]string{}, Callers: map[string][]string{}, Owner: map[string]string{}, StopOwned: map[string]bool{}, StopExempt: map[string]bool{}, File: path}
+	db := &ContractDB{Funcs: map[string]*FuncContract{}, Specs: map[string]*SpecFn{}, GhostByName: map[string]GhostVar{}, ThreadLocal: map[string]bool{}, Consts: map[string]string{}, Callers: map[string][]string{}, Owner: map[string]string{}, StopOwned: map[string]bool{}, StopRead: map[string]bool{}, StopExempt: map[string]bool{}, File: path}
 	lines := strings.Split(string(data), "\n")
 	db.NLines = len(lines)
 	// gather logical items
@@ -172,6 +175,10 @@ func ParseContractFile(path string) (*ContractDB, error) {
 			case "stopowned":
 				for _, f := range strings.Fields(rest) {
 					db.StopOwned[f] = true
+				}
+			case "stopread":
+				for _, f := range strings.Fields(rest) {
+					db.StopRead[f] = true
 				}
 			case "stopexempt":
 				for _, f := range strings.Fields(rest) {
